@@ -13,7 +13,7 @@ import (
 func init() {
 	register(&propDef{
 		ID:          "C07",
-		Explanation: "Decides pairing, provenance and counter agreement — the structural reasons the source map is right — for ALL sites: R1 on every emission path of the generator (GEM), every write of a Go expression's text is the first text of its write and is immediately followed by sourceMap.Add(that same expression, the range returned by that very write), and every Add is preceded by such a write; R2 no parser.Expression value is fabricated inside the generator (expressions and their ranges come from the parser); R3 in SourceMap.Add the source/target column and index counters advance by the same rune length, both index counters take the newline step, and every source→target store has the mirrored target→source store; in the range writer's write, index and column advance by the same length and a newline resets the column and increments the line; R4 symbol ranges run from the first emission's start to the last emission's end with nothing emitted after registration; R5 the range writer returns the range of the text argument alone. R6 the generator rewrites attribute lists only on a deep copy of the parsed ones (the copier recurses into every nested attribute list), so a second generation of the same parsed file maps the same expressions. R7 the range writer's raw write sends every rune of its argument to the output (no skipped or conditional runes). R8 the parser's recorded positions, which the source map starts from, are not edited coordinate by coordinate: direct writes to Index/Line/Col exist only as a paired constant adjustment of Index and Col (same rule as C06.R1(d)). NOT decided: byte equality of mapped positions on concrete files. R9 the text of every Expression is the consumed input (what the source map walks from Range.From), constants in it are constants that were parsed.",
+		Explanation: "Decides pairing, provenance and counter agreement — the structural reasons the source map is right — for ALL sites: R1 on every emission path of the generator (GEM), every write of a Go expression's text is the first text of its write and is immediately followed by sourceMap.Add(that same expression, the range returned by that very write), and every Add is preceded by such a write; R2 no parser.Expression value is fabricated inside the generator (expressions and their ranges come from the parser); R3 in SourceMap.Add the source/target column and index counters advance by the same rune length, both index counters take the newline step, and every source→target store has the mirrored target→source store; in the range writer's write, index and column advance by the same length and a newline resets the column and increments the line; R4 symbol ranges run from the first emission's start to the last emission's end with nothing emitted after registration; R5 the range writer returns the range of the text argument alone. R6 the generator rewrites attribute lists only on a deep copy of the parsed ones (the copier recurses into every nested attribute list), so a second generation of the same parsed file maps the same expressions. R7 the range writer's raw write sends every rune of its argument to the output (no skipped or conditional runes). R8 the parser's recorded positions, which the source map starts from, are not edited coordinate by coordinate: direct writes to Index/Line/Col exist only as a paired constant adjustment of Index and Col (same rule as C06.R1(d)). NOT decided: byte equality of mapped positions on concrete files. R9 the text of every Expression is the consumed input (what the source map walks from Range.From), constants in it are constants that were parsed. R10 the range recorded for text made of parser results brackets that text (run of C06.R9: a start read once before a loop records every later round at the first round's position).",
 		Assumptions: []string{"parser ranges are faithful (C06)", "utf8.RuneLen/EncodeRune agree on rune length"},
 		Trusted:     []string{"go/types", "x/tools go/packages"},
 		Run:         runC07,
